@@ -300,23 +300,18 @@ def derivatives(m, x, t, theta, order=None):
     a = np.array([j.v for j in r["rates"]]).reshape(n_e)
     dadx = np.array([j.g[xs] for j in r["rates"]]).reshape(n_e, n_s)
     V = np.array([[c.v for c in row] for row in r["V"]]).reshape(n_s, n_e)
-    # size of the terms that are summed into one entry of f, of its first and of its second derivatives: the float64 reference
-    # itself carries rounding noise of about 1e-16 times these when contributions of different events cancel
-    mag0 = mag1 = mag2 = 0.0
-    for col in range(n_e):
-        aj = r["rates"][col]
-        for i in range(n_s):
-            vj = r["V"][i][col]
-            av, ag, ah = abs(aj.v), float(np.abs(aj.g).max()), float(np.abs(aj.h).max())
-            vv, vg, vh = abs(vj.v), float(np.abs(vj.g).max()), float(np.abs(vj.h).max())
-            mag0 = max(mag0, vv * av)
-            mag1 = max(mag1, vv * ag + vg * av)
-            mag2 = max(mag2, vv * ah + 2 * vg * ag + vh * av)
-    for pj in r["pure"]:
-        mag0, mag1, mag2 = max(mag0, abs(pj.v)), max(mag1, float(np.abs(pj.g).max())), max(mag2, float(np.abs(pj.h).max()))
-    terms = max(1, n_e + 1)
+    # entry by entry: the sum of the absolute values of the terms added up into f, its first and its second derivatives
+    # (propagated by the jets); the float64 reference carries rounding noise of a few eps times these
+    fV = np.array([j.V for j in r["f"]])
+    JM = np.array([j.G[xs] for j in r["f"]]).reshape(n_s, n_s)
+    GM = np.array([j.G[ps] for j in r["f"]]).reshape(n_s, n_p)
+    HxxM = np.array([j.H[xs, xs] for j in r["f"]]).reshape(n_s, n_s, n_s)
+    HpxM = np.array([j.H[ps, xs] for j in r["f"]]).reshape(n_s, n_p, n_s)
+    mag0 = float(fV.max()) if fV.size else 0.0
+    mag1 = float(max(JM.max() if JM.size else 0.0, GM.max() if GM.size else 0.0))
+    mag2 = float(max(HxxM.max() if HxxM.size else 0.0, HpxM.max() if HpxM.size else 0.0))
     return dict(f=f, J=J, G=G, Hxx=Hxx, Hpx=Hpx, Hpp=Hpp, a=a, dadx=dadx, V=V,
-                mag0=terms * mag0, mag1=terms * mag1, mag2=terms * mag2)
+                mag0=mag0, mag1=mag1, mag2=mag2, fM=fV, JM=JM, GM=GM, HxxM=HxxM, HpxM=HpxM)
 
 
 def rhs_callable(m, theta, order=None):
